@@ -334,6 +334,12 @@ func (ci *crdIpam) Shutdown() {
 // ConfigurePool init floatingIP pool.
 // #lizard forgives
 func (ci *crdIpam) ConfigurePool(floatIPs []*FloatingIPPool) error {
+	for i := range floatIPs {
+		if floatIPs[i] == nil {
+			// e.g. a json null in the floatingip config
+			return fmt.Errorf("floatingip config %d is null", i)
+		}
+	}
 	sort.Sort(FloatingIPSlice(floatIPs))
 	// list floatingips with the lock held, otherwise an ip allocated after listing and before locking is lost in cache
 	ci.cacheLock.Lock()
